@@ -18,6 +18,8 @@ for name in names:
     patch = os.path.join(d, "patch.diff")
     if not os.path.exists(patch):
         continue
+    if os.path.exists(os.path.join(d, "patch_rebased.diff")):   # same change, re-based onto later fix commits
+        patch = os.path.join(d, "patch_rebased.diff")
     if inrepo:
         wt = "/repo"
         subprocess.run(["git", "-C", "/repo", "apply", patch], check=True)
